@@ -65,6 +65,7 @@ def run(ctx: Ctx) -> Outcome:
     fine_cov, fine_traces, fine_notes = fine.result()
     rtfine.merge(model_cov, fine_cov)
     out = rtcheck.validate('C07', scs, ctx, extra_traces=list(guided) + real_traces + fine_traces, extra_cov=model_cov)
+    rtfine.annotate_residue(out)       # names the WorkerFine configuration in the key / detail of violations that came from it
     out.notes += notes + fine_notes
     out.assumptions = ['per-channel FIFO delivery; a select returns one ready connection at a time (every order is realisable by timing)',
                        'task bodies are deterministic programs over submit/map/next/await; values are task ids']
